@@ -5,7 +5,7 @@ V = os.path.dirname(os.path.dirname(os.path.abspath(__file__)))
 res = json.load(open(os.path.join(V, 'seeded', 'results.json')))
 rows = []
 def key(m):
-    mm = re.match(r'([CDFGH])(\d+)(.*)', m)
+    mm = re.match(r'([CDFGHI])(\d+)(.*)', m)
     return (mm.group(1), int(mm.group(2)), mm.group(3))
 for m in sorted(res, key=key):
     meta_p = os.path.join(V, 'seeded', m, 'meta.json')
